@@ -730,7 +730,7 @@ Definition grows (s s' : state) (outs : list out) : Prop :=
         exists q', get_queue s' qi = Some q' /\ In b (q_allocs q')).
 
 Lemma grows_refl s : grows s s [].
-Proof. repeat split; intros; eauto. contradiction. Qed.
+Proof. repeat split; intros; eauto; contradiction. Qed.
 
 Lemma grows_trans s1 s2 s3 o1 o2 : grows s1 s2 o1 -> grows s2 s3 o2 -> grows s1 s3 (o1 ++ o2).
 Proof.
@@ -858,6 +858,9 @@ Proof.
 Qed.
 
 (** frame steps *)
+Lemma qpres_same_allocs q q' : q_allocs q' = q_allocs q -> qpres q q'.
+Proof. intros E b Hb. exists b. rewrite <- E. repeat split; auto. intros ga; auto. Qed.
+
 Lemma spres_same_allocs s s' :
   (forall qi q', get_queue s' qi = Some q' -> exists q, get_queue s qi = Some q /\ q_allocs q' = q_allocs q) ->
   spres s s'.
@@ -905,11 +908,11 @@ Proof.
     + inv H. eapply ginv_frame; [apply spres_refl|reflexivity|exact IH].
     + (* pause *)
       destruct (get_queue s q) as [v|] eqn:Eq; inv H; (eapply ginv_frame; [|reflexivity|exact IH]).
-      * eapply spres_set_queue; eauto. apply qpres_refl.
+      * eapply spres_set_queue; eauto. apply qpres_same_allocs. reflexivity.
       * apply spres_refl.
     + (* resume *)
       destruct (get_queue s q) as [v|] eqn:Eq; inv H; (eapply ginv_frame; [|reflexivity|exact IH]).
-      * eapply spres_set_queue; eauto. apply qpres_refl.
+      * eapply spres_set_queue; eauto. apply qpres_same_allocs. reflexivity.
       * apply spres_refl.
     + (* remove *)
       unfold remove_queue in H. destruct (get_queue s q) as [v|] eqn:Eq.
@@ -920,9 +923,118 @@ Proof.
       * apply spres_same_allocs. intros qi q' G. unfold get_queue in *; simpl in G.
         destruct (N.eq_dec qi q) as [->|Hne]; [rewrite alookup_filter_same in G; discriminate|].
         rewrite alookup_filter_other in G; auto. eauto.
-      * simpl. rewrite app_nil_r.
-        assert (E : forall l, new_gallocs (map (fun a => OutRemove q (a_id a)) l ++ [EvQueueRemoved q]) = []).
+      * assert (E : forall l, new_gallocs (map (fun a => OutRemove q (a_id a)) l ++ [EvQueueRemoved q]) = []).
         { induction l; simpl; auto. }
-        now rewrite E.
+        unfold ghost_step. cbn [gh_allocs new_gallocs]. rewrite E. reflexivity.
     + inv H. eapply ginv_frame; [|reflexivity|exact IH]. apply spres_same_allocs. intros qi q' G. eauto.
+Qed.
+
+(** ** C18: while an allocation runs its connected workers are exactly those that connected from
+    it and have not been lost; its disconnected workers are exactly those lost from it *)
+Theorem connected_exact s g qi q a e conn disc :
+  Reach s g -> get_queue s qi = Some q -> In a (q_allocs q) -> a_status a = Running e conn disc ->
+  exists ga, g_find qi (a_id a) (gh_allocs g) = Some ga
+    /\ (forall w, In w conn <-> In w (g_conn ga) /\ ~ In w (g_lost ga))
+    /\ NoDup conn
+    /\ (forall w, In w (map fst disc) <-> In w (g_lost ga))
+    /\ NoDup (map fst disc).
+Proof.
+  intros R G Ha St. destruct (reach_ginv _ _ R _ _ _ G Ha) as (ga & F & A).
+  exists ga. split; auto. unfold accounting_ok in A. rewrite St in A.
+  rewrite !andb_true_iff in A. destruct A as [_ [[[[A B] C] D] E]].
+  rewrite set_eq_spec in A, C. rewrite nodupb_spec in B, D.
+  repeat split; auto; try (intros; apply C; auto).
+  - apply A in H. apply in_diff in H. tauto.
+  - apply A in H. apply in_diff in H. tauto.
+  - intros [H1 H2]. apply A. apply in_diff. auto.
+Qed.
+
+From Coq Require Import Permutation.
+
+Lemma nodup_set_eq_length (l1 l2 : list N) :
+  NoDup l1 -> NoDup l2 -> (forall x, In x l1 <-> In x l2) -> length l1 = length l2.
+Proof. intros N1 N2 H. apply Permutation_length. now apply NoDup_Permutation. Qed.
+
+(** ** C18: a running allocation has fewer distinct lost workers than its size, a normally
+    finished one exactly as many *)
+Theorem finish_iff_all_lost_state s g qi q a :
+  Reach s g -> get_queue s qi = Some q -> In a (q_allocs q) ->
+  exists ga, g_find qi (a_id a) (gh_allocs g) = Some ga /\ NoDup (g_lost ga)
+    /\ match a_status a with
+       | Queued _ => g_lost ga = [] /\ g_conn ga = []
+       | Running _ _ disc => N.of_nat (length (g_lost ga)) < a_target a /\ length disc = length (g_lost ga)
+       | Finished disc => N.of_nat (length disc) = a_target a /\ NoDup (map fst disc)
+       | FinishedU _ _ _ => True
+       end.
+Proof.
+  intros R G Ha. destruct (reach_ginv _ _ R _ _ _ G Ha) as (ga & F & A).
+  exists ga. split; auto. unfold accounting_ok in A. apply andb_true_iff in A. destruct A as [HN A].
+  apply nodupb_spec in HN. split; auto.
+  destruct (a_status a) as [e|e conn disc|disc|conn disc f]; auto.
+  - destruct (g_conn ga); [|discriminate]. destruct (g_lost ga); [|discriminate]. auto.
+  - rewrite !andb_true_iff in A. destruct A as [[[[A B] C] D] E].
+    rewrite set_eq_spec in C. rewrite nodupb_spec in D.
+    pose proof (nodup_set_eq_length _ _ D HN C) as L. rewrite map_length in L.
+    split; [|exact L]. replace (length (g_lost ga)) with (length disc) by (exact L).
+    unfold disc_count in E. lia.
+  - rewrite andb_true_iff in A. destruct A as [D E]. apply nodupb_spec in D.
+    unfold disc_count in E. split; [lia|exact D].
+Qed.
+
+(** ... and the step at which it finishes normally is exactly the loss notification that makes the
+    number of distinct lost workers reach its size *)
+Theorem finish_exactly_when qi a ga w c a' evs fin e conn disc :
+  accounting_ok a ga = true -> a_status a = Running e conn disc ->
+  sync_alloc qi a (RLost w c) = (a', evs, fin) ->
+  ((exists d, a_status a' = Finished d) <-> N.of_nat (length (add_set w (g_lost ga))) = a_target a).
+Proof.
+  intros A St H. unfold accounting_ok in A. rewrite St in A. rewrite !andb_true_iff in A.
+  destruct A as [HN [[[[A B] C] D] E]]. apply nodupb_spec in HN, D. rewrite set_eq_spec in C.
+  assert (L : disc_count (map_insert w c disc) = N.of_nat (length (add_set w (g_lost ga)))).
+  { unfold disc_count. f_equal. rewrite <- (map_length fst).
+    apply nodup_set_eq_length; auto using nodup_map_insert_keys, nodup_add_set.
+    intros x. rewrite in_map_insert_keys, in_add_set, C. tauto. }
+  unfold sync_alloc in H. rewrite St in H. rewrite L in H.
+  destruct (N.of_nat (length (add_set w (g_lost ga))) =? a_target a) eqn:Eq; inv H; simpl.
+  - split; [intros _; lia|eauto].
+  - split; [intros [d Hd]; discriminate|lia].
+Qed.
+
+Lemma only_loss_finishes_normally qi a r a' evs fin d :
+  sync_alloc qi a r = (a', evs, fin) -> a_status a' = Finished d ->
+  (exists d0, a_status a = Finished d0) \/ (exists w c, r = RLost w c).
+Proof.
+  unfold sync_alloc. destruct r; destruct (a_status a) eqn:St; simpl; intros H Hd;
+    repeat match type of H with context [if ?c then _ else _] => destruct c end;
+    inv H; simpl in *; try rewrite St in *; try discriminate; eauto.
+Qed.
+
+Lemma status_errors_never_finish_normally qi a a' evs d :
+  increase_status_error_counter qi a = (a', evs) -> a_status a' = Finished d ->
+  exists d0, a_status a = Finished d0.
+Proof.
+  unfold increase_status_error_counter. destruct (a_status a) eqn:St; intros H Hd;
+    repeat match type of H with context [if ?c then _ else _] => destruct c end;
+    inv H; simpl in *; try rewrite St in *; try discriminate; eauto.
+Qed.
+
+(** ** Finding F15 (before the fix): a worker whose loss was processed before its connection was
+    re-inserted into the connected set, and a loss for a queued allocation was dropped *)
+Lemma F15_unfixed_refuted :
+  (exists a ga w a' evs fin,
+      accounting_ok a ga = true /\ sync_alloc_unfixed 1 a (RConnected w) = (a', evs, fin)
+      /\ accounting_ok a' (g_add_conn w ga) = false
+      /\ (forall a2 e2 f2, sync_alloc 1 a (RConnected w) = (a2, e2, f2) -> accounting_ok a2 (g_add_conn w ga) = true))
+  /\ (exists a ga w a' evs fin,
+      accounting_ok a ga = true /\ sync_alloc_unfixed 1 a (RLost w false) = (a', evs, fin)
+      /\ accounting_ok a' (g_add_lost w ga) = false
+      /\ (forall a2 e2 f2, sync_alloc 1 a (RLost w false) = (a2, e2, f2) -> accounting_ok a2 (g_add_lost w ga) = true)).
+Proof.
+  split.
+  - exists (mkAlloc 1 2 (Running 0 [1] [(2, false)])), (mkG 1 1 [1] [2]), 2.
+    eexists. eexists. eexists. split; [reflexivity|]. split; [reflexivity|]. split; [reflexivity|].
+    intros a2 e2 f2 H. inv H. reflexivity.
+  - exists (mkAlloc 1 2 (Queued 0)), (mkG 1 1 [] []), 2.
+    eexists. eexists. eexists. split; [reflexivity|]. split; [reflexivity|]. split; [reflexivity|].
+    intros a2 e2 f2 H. inv H. reflexivity.
 Qed.
